@@ -464,7 +464,7 @@ fn exec_on(envs: &[Arc<Env>], e: usize, cs: &mut ClientState, op: &Op, record_tr
                 None => 1,
             };
             let inner = slot.borrow_mut().take().unwrap_or(Outcome::Unit);
-            aux = vec![hash_str(&format!("{:?}", inner)), nested];
+            aux = vec![hash_str(&format!("{:?}", inner)), nested, matches!(inner, Outcome::Panicked(_)) as u64];
             outer
         }
         Op::Burst { seed, n, ed, st } => {
@@ -1119,7 +1119,12 @@ pub fn run_scenario(sc: &Scenario, opts: &RunOpts) -> RunReport {
             let exp = &ref_out[ci][oi];
             let inner = op.strip().1;
             let aborted_kind = matches!(inner, Op::Aborted { .. } | Op::AbortedAny { .. } | Op::AbortedRng { .. });
+            // a call that was itself interrupted by a re-entrant call is not judged (a
+            // library need not keep the interrupted call intact: per-thread scratch
+            // read back across a callback is ordinary code); the COMPLETE inner call is
+            let interrupted = matches!(inner, Op::Nested { .. }) && r.aux.get(1) == Some(&1);
             let acceptable = exp.outcome.same(&r.outcome)
+                || interrupted
                 || (aborted_kind
                     && (matches!(r.outcome, Outcome::Aborted) || exp.alt.as_ref().map(|a| a.same(&r.outcome)).unwrap_or(false)));
             if !acceptable {
@@ -1154,7 +1159,10 @@ pub fn run_scenario(sc: &Scenario, opts: &RunOpts) -> RunReport {
                 }
             }
             if let Op::Nested { .. } = inner {
-                if r.aux.first() != exp.aux.first() {
+                // ... unless it panicked (a RefCell borrow held across the callback: the
+                // library does not support re-entrancy, which C17 does not promise);
+                // what is reported is a re-entrant call that RETURNS another result
+                if r.aux.first() != exp.aux.first() && r.aux.get(2) != Some(&1) {
                     violations.push(Violation {
                         class: "reentrant-call-differs".into(),
                         client: ci,
